@@ -366,9 +366,8 @@ fn flat_scalars(v: &Value, t: &Type, out: &mut Vec<u8>) {
 }
 
 pub fn run(ctx: &mut Ctx) {
-    let total = ctx.q(400, 12000);
-    ctx.cases("exact", total, |ctx, idx| exact_case(ctx, idx));
-
+    // sampled mode first (a fixed amount of work); the exact mode then runs until its case budget
+    // or the soft deadline, whichever comes first
     // sampled mode: histograms are emitted; the statistical decision is made by the Python monitor
     let tpls = templates();
     let n_samples = ctx.q(3000u64, 30000);
@@ -516,4 +515,6 @@ pub fn run(ctx: &mut Ctx) {
         let f = std::fs::File::create(format!("{}/c03_sampled_{}.json", d, ctx.shard)).unwrap();
         serde_json::to_writer(f, &records).ok();
     }
+    let total = ctx.q(400, 12000);
+    ctx.cases("exact", total, |ctx, idx| exact_case(ctx, idx));
 }
